@@ -129,4 +129,123 @@ theorem implL_added_noInst (X : SchemaX) (o : VOpts) (cx : Cx) (ks : List STree)
     rw [hd] at this
     cases this
 
+/-! ## `lyd_new_implicit` logs no error -/
+
+theorem Out.ofEvs_errs (evs : List Ev) : (Out.ofEvs evs).errs = [] := by
+  unfold Out.ofEvs Out.errs
+  induction evs with
+  | nil => rfl
+  | cons e es ih => simp
+
+theorem implLeafList_errs (S : Schema) (cx : Cx) (sid : Nat) : ∀ (ds : List Bytes) (acc : List DNode × Out), acc.2.errs = [] →
+    (implLeafList S cx sid ds acc).2.errs = [] := by
+  intro ds
+  induction ds with
+  | nil => intro acc h; exact h
+  | cons d ds ih =>
+    intro acc h
+    unfold implLeafList
+    apply ih
+    simp only [addImplicit, Out.append_errs, h, Out.ofEvs_errs, List.append_nil]
+
+theorem implNode_errs (S : Schema) (o : VOpts) (cx : Cx) (k : STree) (sibs : List DNode) : (implNode S o cx k sibs).2.errs = [] := by
+  unfold implNode
+  dsimp only
+  split
+  · rfl
+  · split
+    · split
+      · rfl
+      · simp only [addImplicit, Out.ofEvs_errs]
+    · split
+      · simp only [addImplicit, Out.ofEvs_errs]
+      · rfl
+    · exact implLeafList_errs S cx k.sid _ _ rfl
+    · rfl
+
+theorem implNodes_errs (S : Schema) (o : VOpts) (cx : Cx) : ∀ (ks : List STree) (sibs : List DNode), (implNodes S o cx ks sibs).2.errs = [] := by
+  intro ks
+  induction ks with
+  | nil => intro sibs; rfl
+  | cons k ks ih =>
+    intro sibs
+    unfold implNodes
+    simp only [Out.append_errs, implNode_errs, ih, List.append_nil]
+
+theorem implChoices_errs (X : SchemaX) (o : VOpts) (cx : Cx) (ks : List STree) (sibs : List DNode) :
+    (implChoices X o cx ks sibs).2.errs = [] := by
+  apply implChoices.induct X o cx
+    (motive_1 := fun ks sibs => (implChoices X o cx ks sibs).2.errs = [])
+    (motive_2 := fun t sibs => (implChoice X o cx t sibs).2.errs = [])
+    (motive_3 := fun sid ks sibs => (implCaseHolding X o cx sid ks sibs).2.errs = [])
+    (motive_4 := fun t sibs => (implCase X o cx t sibs).2.errs = [])
+    (motive_5 := fun target ks sibs => (implInto X o cx target ks sibs).2.errs = [])
+    (motive_6 := fun target t sibs => (implIntoCase X o cx target t sibs).2.errs = [])
+    (motive_7 := fun target ks sibs => (implIntoKids X o cx target ks sibs).2.errs = [])
+    (motive_8 := fun target t sibs => (implIntoChoice X o cx target t sibs).2.errs = [])
+    (motive_9 := fun nm ks sibs => (implCaseNamed X o cx nm ks sibs).2.errs = [])
+  -- implChoice
+  · intro sid i cases sibs h
+    unfold implChoice; simp only [h, if_true]; rfl
+  · intro sid i cases sibs h hfd nm hnm ih
+    unfold implChoice; simp only [h, Bool.false_eq_true, if_false, hfd, hnm]; exact ih
+  · intro sid i cases sibs h hfd hnm
+    unfold implChoice; simp only [h, Bool.false_eq_true, if_false, hfd, hnm]; rfl
+  · intro sid i cases sibs h node hfd hq target ht ih
+    unfold implChoice; simp only [h, Bool.false_eq_true, if_false, hfd, hq, if_true, ht]; exact ih
+  · intro sid i cases sibs h node hfd hq ht
+    unfold implChoice; simp only [h, Bool.false_eq_true, if_false, hfd, hq, if_true, ht]; rfl
+  · intro sid i cases sibs h node hfd hq ih
+    unfold implChoice; simp only [h, Bool.false_eq_true, if_false, hfd, hq]; exact ih
+  -- implCase
+  · intro sid i cases sibs ih
+    unfold implCase
+    simp only [Out.append_errs, ih, implNodes_errs, List.append_nil]
+  -- implIntoCase
+  · intro target sid i cases sibs ih
+    unfold implIntoCase; exact ih
+  -- implIntoChoice
+  · intro target sid i cases sibs h ih
+    unfold implIntoChoice; simp only [h, if_true]; exact ih
+  · intro target sid i cases sibs h
+    unfold implIntoChoice; simp only [h, Bool.false_eq_true, if_false]; rfl
+  -- implChoices
+  · intro sibs; unfold implChoices; rfl
+  · intro k ks sibs _ ih1 ih2
+    unfold implChoices
+    simp only [Out.append_errs, ih1, List.nil_append]
+    exact ih2
+  -- implCaseHolding
+  · intro sid sibs; unfold implCaseHolding; rfl
+  · intro sid k ks sibs h ih
+    unfold implCaseHolding; simp only [h, if_true]; exact ih
+  · intro sid k ks sibs h ih
+    unfold implCaseHolding; simp only [h, Bool.false_eq_true, if_false]; exact ih
+  -- implInto
+  · intro target sibs; unfold implInto; rfl
+  · intro target k ks sibs r1 ih1 ih2 ih3
+    unfold implInto
+    simp only [Out.append_errs, List.append_eq_nil_iff]
+    refine ⟨?_, ih3⟩
+    show (if (k.sid == target) = true then implCase X o cx k sibs else implIntoCase X o cx target k sibs).2.errs = []
+    split
+    · exact ih1
+    · exact ih2
+  -- implIntoKids
+  · intro target sibs; unfold implIntoKids; rfl
+  · intro target k ks sibs _ ih1 ih2
+    unfold implIntoKids
+    simp only [Out.append_errs, ih1, List.nil_append]
+    exact ih2
+  -- implCaseNamed
+  · intro nm sibs; unfold implCaseNamed; rfl
+  · intro nm k ks sibs h ih
+    unfold implCaseNamed; simp only [h, if_true]; exact ih
+  · intro nm k ks sibs h ih
+    unfold implCaseNamed; simp only [h, Bool.false_eq_true, if_false]; exact ih
+
+theorem implL_errs (X : SchemaX) (o : VOpts) (cx : Cx) (ks : List STree) (sibs : List DNode) : (implL X o cx ks sibs).2.errs = [] := by
+  unfold implL
+  simp only [Out.append_errs, implChoices_errs, implNodes_errs, List.append_nil]
+
 end LyModel.Valid
